@@ -450,7 +450,7 @@ def c08(tier, seed):
     import envelope
     from scenarios import cat, mr, caitems, cacat, scenario
     n = 40 if tier == "quick" else 400
-    y = dict(yvals=(0, 1, 3), ymeasures=("mean", "sum"), valid_counts=True)
+    y = dict(yvals=(0, 1, 3), ymeasures=("mean", "sum", "stddev"), valid_counts=True)
     base = [
         scenario("cat_x_cat", [cat("A", 4, miss=[2], vals=[1, 9, 3, 2]), cat("B", 4, miss=[4], vals=[2, None, 1, 5])],
                  population=100),
@@ -471,7 +471,7 @@ def c08(tier, seed):
         ri, ci = envelope.slice_dim_indexes(s["dims"])
         rd = s["dims"][ri]
         cd = s["dims"][ci] if ci is not None else None
-        s["configs"] = configs.sort_configs(rd, cd, n, seed * 131 + i, has_y=bool(s["yvals"]))
+        s["configs"] = configs.sort_configs(rd, cd, n, seed * 131 + i, has_y=tuple(s.get("ymeasures") or ()) if s["yvals"] else False)
         if cd is not None and rd["kind"] == "cat" and s.get("population"):
             valid = [x for p, x in enumerate(rd["ids"], 1) if p not in rd["miss"]]
             cvalid = [x for p, x in enumerate(cd["ids"], 1) if p not in cd["miss"]]
@@ -541,7 +541,7 @@ def c05(tier, seed):
         rd = s["dims"][ri]
         cd = s["dims"][ci] if ci is not None else None
         s["configs"] = (configs.order_configs(rd, cd, n, seed * 59 + i, with_prune=True)
-                        + configs.sort_configs(rd, cd, n // 2, seed * 61 + i, has_y=bool(s["yvals"])))
+                        + configs.sort_configs(rd, cd, n // 2, seed * 61 + i, has_y=tuple(s.get("ymeasures") or ()) if s["yvals"] else False))
         configs.assign_label_ranks(s)
         scns.append(s)
     jobs = _value_jobs("C05", "c07", scns, tier, seed,
